@@ -89,7 +89,7 @@ def judge(rep, item, mrun):
         if bad:
             rep.fail('failing-input', scn, bad, impl=obs.get('stats'))
             return
-    if second is not None and second != first:
+    if second is not None and S.pub(second) != S.pub(first):
         a = first.get('stats', first)
         b = second.get('stats', second)
         rep.fail('failing-input', scn,
